@@ -22,6 +22,12 @@ CHECKS = {
         "note": "First time point, measure, time signature and divisions entry are at position 0 (what importers produce); values before the first signature are not judged; tolerance 1e-9 relative (forward), 1e-6 absolute (inverse). Cases where user-supplied musical beats make 'shorter than a bar' differ between quarters and beats are counted and not judged.",
         "technique": "property-based testing (Hypothesis) against an exact Fraction reference model of musical time",
     },
+    "C10": {
+        "text": "Generated parts with 0-n time signatures (first one late, missing, or only the last kept), key signatures with all fifths/modes incl. a missing mode, clefs on 1-3 staves incl. staves without a clef and parts without any clef, regular/irregular measures, pickups, notated and musical beat mode; time_signature_map, key_signature_map, clef_map, measure_map, measure_number_map and metrical_position_map are queried at every integer position as one array and as scalars at all change points, bar lines and an even sample, and compared with 'latest element at or before t / first one before it / documented default' and with the measure extents computed from the abstract spec. Exploration.",
+        "design_ref": "DESIGN.md 4 C10",
+        "note": "Measures are contiguous from 0; pickup extent judged only with a time signature at 0 and no division change inside the first measure; metrical position of single-measure parts not judged (library documents 0 everywhere); clef line is an int as documented.",
+        "technique": "property-based testing (Hypothesis) against an in-force lookup reference computed from the abstract score",
+    },
     "C12": {
         "text": "Exhaustive enumeration of every finite conversion domain named by the property (spelling, MIDI, note names, keys, modes, clefs, symbolic durations, tuplets, tempo units, interval classes, table agreement, frequency) against integer/Fraction arithmetic, plus Hypothesis sampling of (ppq, mpq, time) for tick conversion with scalars and arrays of several dtypes. Enumerated parts are complete; sampled part is exploration.",
         "design_ref": "DESIGN.md 4 C12",
